@@ -32,6 +32,8 @@ class XsdOracle(Oracle):
 
     def __init__(self, at_checkpoint_only=False):
         self.state = {}  # deck idx -> {id(part): (part, hash, frozenset(sigs))}
+        self.acc = {}    # deck idx -> {partname: every signature accepted for that part so far} (survives re-opens: one schema error can hide
+        #                  another from the validator, so an error of the START deck may be invisible at the moment of a re-open)
         self.ckpt_only = at_checkpoint_only
 
     def _scan(self, w, deck, baseline: bool):
@@ -55,9 +57,11 @@ class XsdOracle(Oracle):
                 continue
             w.stats.hit("c03_validations")
             sigs = frozenset(sigs)
+            acc = self.acc.setdefault(deck.idx, {})
             if baseline:
                 if sigs:
                     w.stats.hit("c03_baseline_invalid_parts")
+                sigs = frozenset(sigs | acc.get(str(part.partname), frozenset()))
             else:
                 base = old[2] if old is not None else frozenset()
                 fresh = sorted(sigs - base)
@@ -67,6 +71,7 @@ class XsdOracle(Oracle):
                     kept.add(s)  # known finding: continue with it as part of the baseline
                 sigs = frozenset(kept | sigs)
             new[id(part)] = (part, h, sigs)
+            acc[str(part.partname)] = frozenset(acc.get(str(part.partname), frozenset()) | sigs)
         self.state[deck.idx] = new
 
     def on_open(self, w, deck):
